@@ -1149,7 +1149,7 @@ def mc_generate_l2(family, turns, name, sample_mod=1, sample_key=0, max_edges=No
     cmd = ["tlc", "-workers", str(vlib.NCPU), "-metadir", os.path.join(d, "md"), "-config", "MC.cfg", "MC_L2.tla"]
     t0 = time.time()
     edges, tail, nedges = [], [], 0
-    p = subprocess.Popen(cmd, cwd=d, env=vlib._tlc_env(), stdout=subprocess.PIPE, stderr=subprocess.STDOUT, text=True)
+    p = subprocess.Popen(cmd, cwd=d, env=vlib._tlc_env(heap="8g"), stdout=subprocess.PIPE, stderr=subprocess.STDOUT, text=True)
     for ln in p.stdout:
         ln = ln.rstrip("\n")
         m = EDGE_RE.match(ln)
